@@ -921,3 +921,45 @@ def stale_encoding_rule(ctx, rid):
             rr.bad(ctx.finding(rid, anchor, anchor.node, "%s loads the data file, merges new data into it and writes the result back without ever dropping the variables' dtype encodings: xarray re-applies the stored dtype on writing, so after harvesting x = [1, 2] "
                                "a point harvested at x = 2.5 is written to disk under the label 2 (SerializationWarning only) -- memory says [1, 2, 2.5], the file [1, 2, 2]" % label, construct="stale-dtype-encoding " + label), "%s encodings" % label)
     return rr
+
+
+CSV_READ_OPTIONS = {
+    ("keep_default_na", False): "empty fields (how pandas writes NaN) are read back as the string '' instead of NaN, and the whole column becomes text",
+    ("na_filter", False): "missing-value detection is switched off: NaN outputs come back as '' and numeric columns as text",
+    ("dtype", "str"): "every column is read as text", ("dtype", "object"): "every column is read as objects / text",
+    ("header", None): "the header line is read as a data row",
+}
+
+
+def csv_options_rule(ctx, rid):
+    """C15.R13: a small table of pandas.read_csv options under which a table written by to_csv does not read back as it
+    was (library semantics, frozen here like the xarray table of C03.R9): load_df must not set them."""
+    rr = ctx.rule(rid, "load_df: no pandas.read_csv option that changes how a written table reads back (keep_default_na / na_filter off, dtype=str, header=None)", floor=1)
+    f = ctx.prog.need_func(MAN + ".load_df")
+    ctx.touch(f)
+    found = []
+    for x in ast.walk(f.node):
+        key = val = None
+        if isinstance(x, ast.Call) and isinstance(x.func, ast.Attribute) and x.func.attr in ("setdefault", "update") and norm(x.func.value) == "kwargs":
+            if x.func.attr == "setdefault" and len(x.args) == 2 and isinstance(x.args[0], ast.Constant):
+                key, val = x.args[0].value, x.args[1]
+                found.append((x, key, val))
+            for k in x.keywords:
+                if k.arg:
+                    found.append((x, k.arg, k.value))
+        elif isinstance(x, ast.Assign) and isinstance(x.targets[0], ast.Subscript) and norm(x.targets[0].value) == "kwargs" and isinstance(x.targets[0].slice, ast.Constant):
+            found.append((x, x.targets[0].slice.value, x.value))
+        elif isinstance(x, ast.Call) and not (isinstance(x.func, ast.Attribute) and norm(x.func.value) == "kwargs"):
+            for k in x.keywords:
+                if k.arg in {o for o, _ in CSV_READ_OPTIONS}:
+                    found.append((x, k.arg, k.value))
+    bad = False
+    for node, key, val in found:
+        v = val.value if isinstance(val, ast.Constant) else norm(val)
+        why = CSV_READ_OPTIONS.get((key, v))
+        if why:
+            bad = True
+            rr.bad(ctx.finding(rid, f, node, "load_df reads csv tables with %s=%r: %s -- after the next run the earlier rows of the accumulated table are changed (and differ from the file)" % (key, v, why), construct="csv-option " + key), "csv option %s" % key)
+    if not bad:
+        rr.ok("load_df sets none of the read_csv options of the table (%d option stores examined)" % len(found))
+    return rr
